@@ -48,7 +48,7 @@ class C20(Spec):
                     out.append(self.job("ext", dict(s, subset=S)))
                 if len(S) in (1, 5, 6):
                     for i, s in enumerate(docs.g2_shards(pool, replace=True)):
-                        if i % 3 == 0:
+                        if i % 5 == 0:
                             out.append(self.job("ext", dict(s, subset=S), budget=300.0))
             for s in docs.g1_shards(2):
                 out.append(self.job("ext", dict(s, subset=EXT), budget=300.0))
